@@ -117,6 +117,7 @@ type World struct {
 	DupKinds map[string]bool
 	AfterCommit func() // called right after every Commit of the main node
 	Cleanup  []func()  // run by Close (temporary directories etc.)
+	MidBlock func(phase string, b *BlockCtx) // called between the ABCI calls of the main node's block
 	DiskAt   map[int64]*simdb.Disk // copy of the main node's disk after each commit (KeepDisks)
 	ReqLog   []BlockReq // executed block requests (for twins)
 	ResLog   []BlockRes
@@ -281,6 +282,12 @@ func (w *World) Step(bo *BlockOp) bool {
 		}
 		return false
 	}
+	if w.MidBlock != nil {
+		w.MidBlock("after-begin", b)
+		if w.Viol != nil {
+			return false
+		}
+	}
 	view := &View{S: w.Prev, Height: uint64(h), NAcct: w.Sc.Gen.NAcct, Chain: w.Chain, NonceAdd: map[types.Address]uint64{}, Log: w.Log, Issued: w.Issued, DupAcceptedOnly: w.Sc.Params["dup_accepted_only"] == 1}
 	for _, op := range bo.Ops {
 		m := view.Resolve(op)
@@ -289,6 +296,12 @@ func (w *World) Step(bo *BlockOp) bool {
 		b.Req.Txs = append(b.Req.Txs, m.Bytes)
 		for _, mon := range w.Monitors {
 			mon.BeforeTx(w, b, m)
+		}
+		if w.MidBlock != nil {
+			w.MidBlock("between-txs", b)
+			if w.Viol != nil {
+				return false
+			}
 		}
 		r, cerr := w.Node.Deliver(m.Bytes)
 		if cerr != nil {
@@ -332,6 +345,12 @@ func (w *World) Step(bo *BlockOp) bool {
 		b.Res.Stopped = true
 		w.Stats.Truncated = "node stopped in EndBlock"
 		return false
+	}
+	if w.MidBlock != nil {
+		w.MidBlock("after-end", b)
+		if w.Viol != nil {
+			return false
+		}
 	}
 	hash, cerr := w.Node.Commit()
 	if cerr != nil {
